@@ -34,7 +34,8 @@ class C11(PropBase):
             p['blocksize'] = rng.choice([0, 1, 2, 3, 8])
             p['stmin'] = rng.choice([0, 0, 1, 5, 0xF1, 0xF9])
             p['rx_flowcontrol_timeout'] = TMO_MS
-            p['rx_consecutive_frame_timeout'] = TMO_MS
+            # (a receiver more patient than the sender: the sender gives up and starts its next message while the receiver still waits)
+            p['rx_consecutive_frame_timeout'] = TMO_MS * rng.choice([1, 1, 1, 4])
         ops = [{'op': 'layer', 'i': 0, 'addr': a, 'params': pa}, {'op': 'layer', 'i': 1, 'addr': b, 'params': pb}]
         rid = 0
         total = {0: 0, 1: 0}
@@ -42,11 +43,18 @@ class C11(PropBase):
         for side, p, ad in ((0, pa, a), (1, pb, b)):
             txdl = p.get('tx_data_length', 8)
             pre = gen.prefix_len(ad, 'tx')
+            retry = rng.random() < 0.25     # the same request sent again and again (a retry, a periodic request): identical frames
+            same = None
             for _ in range(nmsg[side]):
                 rid += 1
                 n = rng.choice([1, 3, 7 - pre, 8, 10, 20, 30, 60, 3 * txdl, 5 * txdl + 3])
                 n = max(1, n)
-                ops.append({'op': 'send', 'i': side, 'id': rid, 'data': gen.rand_payload(rng, n)})
+                data = gen.rand_payload(rng, n)
+                if retry:
+                    same = same if same is not None else gen.rand_payload(rng, max(n, 10))
+                    data = same
+                ops.append({'op': 'send', 'i': side, 'id': rid, 'data': data})
+                n = len(data)
                 total[side] += frames_needed(n, txdl, pre)
         side = rng.choice([0, 0, 1])
         est = max(1, total[side] + total[1 - side] // 3)
@@ -62,15 +70,65 @@ class C11(PropBase):
             ops.append({'op': 'process', 'i': 0, 'keep': True})
             ops.append({'op': 'tick', 'dt': 60000000 if k % 8 == 7 else dt, 'keep': True})
         for _ in range(4):
-            ops.append({'op': 'tick', 'dt': 150000000, 'keep': True})
+            ops.append({'op': 'tick', 'dt': 150000000 * 4, 'keep': True})
             ops.append({'op': 'process', 'i': 0, 'keep': True})
             ops.append({'op': 'process', 'i': 1, 'keep': True})
         return {'ops': ops, 'meta': {'side': side, 'kind': kind, 'n': n}}
+
+    def enumerate(self, tier):
+        """the same property on two STARTED layers (real threads, raw queues): one frame of a three-message exchange dropped or duplicated.
+        Timeouts 600 ms (far above scheduling delays, short enough to wait for); judged on the callers' view only (`no_model`)."""
+        a = {'mode': 0, 'txid': 0x123, 'rxid': 0x456}
+        b = {'mode': 0, 'txid': 0x456, 'rxid': 0x123}
+        k = 0
+        faults = [(0, 'drop', 1), (0, 'drop', 2), (0, 'dup', 2), (1, 'drop', 0), (0, 'drop', 4), (0, 'dup', 1)]
+        if tier != 'quick':
+            faults = [(s, kd, n) for s in (0, 1) for kd in ('drop', 'dup') for n in range(0, 9)]
+        for (side, kind, n) in faults:
+            for bs in ((0, 2) if tier == 'quick' else (0, 1, 2)):
+                k += 1
+                senders = {0: [[(1, bytes([0, 0, 0]) + bytes([0x10 + k] * 31)), (2, bytes([0, 0, 1]) + bytes([0x20] * 17)), (3, bytes([0, 0, 2, 9, 9]))]], 1: []}
+                yield {'ops': [], 'threaded': True, 'no_model': True, 'seed': 7000 + k, 'transport': 'queue_blocking' if k % 2 else 'queue_legacy',
+                       'addrs': (a, b), 'params': ({'blocksize': bs, 'stmin': 0}, {'blocksize': bs, 'stmin': 0}), 'senders': senders, 'latency': 0,
+                       'read_timeout': 0.05, 'noise': False, 'perturb': 0, 'cf_timeout_ms': 600, 'fc_timeout_ms': 600,
+                       'fault': {'side': side, 'kind': kind, 'n': n}, 'meta': {'side': side, 'kind': kind, 'n': n}}
+
+    def run_impl(self, sc):
+        if sc.get('threaded'):
+            from props.C13 import run_threaded
+            return run_threaded(sc)
+        return PropBase.run_impl(self, sc)
+
+    def judge_threaded(self, sc):
+        res = sc.get('_result')
+        out = []
+        f = sc['fault']
+        S = [p for items in sc['senders'][0] for (_, p) in items]
+        G = res['received'][1]
+        happened = sc.get('_fault_frame') is not None
+        ok = (G == S)
+        if not ok and happened:
+            ok = any(G == S[:k] + S[k + 1:] for k in range(len(S))) or any(G == S[:k + 1] + S[k:] and len(S[k]) <= 7 for k in range(len(S)))
+        if not ok:
+            out.append(('contained', 'started layers: sent lengths %s, received lengths %s (fault: %s frame %d of layer %d%s)' % (
+                [len(x) for x in S], [len(x) for x in G], f['kind'], f['n'], f['side'], '' if happened else ', never reached')))
+        if sc.get('_idle_end') is not None and not all(sc['_idle_end']):
+            out.append(('idle', 'started layers not idle again within %s s of the fault: %s' % (sc.get('fault_wait_s', 8), sc['_idle_end'])))
+        errs = res['errors'][0] + res['errors'][1]
+        if happened and f['kind'] == 'drop' and len(G) < len(S) and not errs:
+            out.append(('reported', 'a frame of a multi-frame message was lost but no error was reported on either side'))
+        if not happened and errs:
+            out.append(('clean', 'no fault happened but errors were reported: %s' % errs[:3]))
+        if res['send_exc'] or res['stuck_senders']:
+            out.append(('contained', 'send() raised / blocked: %s %s' % (res['send_exc'][:2], res['stuck_senders'])))
+        return out[:3]
 
     def project(self, op_line, out_line):
         return trace.project_events(out_line, keep=('tx', 'err', 'deliver', 'done'), status_keys=('rx', 'tr'), drop_times=True)
 
     def judge(self, sc, lines_in, impl_out):
+        if sc.get('threaded'):
+            return self.judge_threaded(sc)
         meta = sc['meta']
         out = []
         sent = {0: [], 1: []}
@@ -126,6 +184,8 @@ class C11(PropBase):
         return out[:3]
 
     def nontrivial_key(self, sc, lines_in, impl_out):
+        if sc.get('threaded'):
+            return ('threaded', sc['transport'], sc['params'][0]['blocksize'], tuple(sorted(sc['fault'].items()))) if sc.get('_fault_frame') is not None else None
         meta = sc['meta']
         n_tx = sum(o.count('tx@') for l, o in zip(lines_in, impl_out) if l.startswith('process %d' % meta['side']))
         if meta['n'] >= n_tx:
@@ -135,6 +195,9 @@ class C11(PropBase):
         return (str(cfgs[0]['addr'].get('mode', 'a')), cfgs[0]['params']['blocksize'], cfgs[1]['params']['blocksize'], lens, meta['side'], meta['kind'], meta['n'])
 
     def tally(self, dist, sc, lines_in, impl_out):
+        if sc.get('threaded'):
+            dist['started_layers_runs'] = dist.get('started_layers_runs', 0) + 1
+            return
         PropBase.tally(self, dist, sc, lines_in, impl_out)
         k = 'fault:' + sc['meta']['kind']
         dist[k] = dist.get(k, 0) + 1
